@@ -1200,6 +1200,7 @@ def run(chk):
     for db in dbs:
         db.close()
     chk.notes.append(dict(probe=dict(P.stats), generated=dict(pdist)))
+    os.makedirs(os.path.join(common.ROOT, 'replays'), exist_ok=True)
     json.dump([f for f in chk.failures if not f.get('kf')][:300], open(os.path.join(common.ROOT, 'replays', 'C06_new_failures.json'), 'w'),
               indent=1, default=str)
     chk.samples.append(dict(probe_stats=dict(P.stats)))
